@@ -90,6 +90,21 @@ def run(ctx):
                     keyok = True
     c.ob("R3", keyok, syt, "cancel-flag-keyed-by-owner", "the cancel flag is stored under a key derived from the owner id" if keyok else
          "the sync timer's cancel flag is not stored under its owner: _cancel_state_tasks cannot find it", syt.node)
+    # one cancel flag per armed timer: the registry key must be unique per timer, not per (state, delay)
+    uniq = False
+    for w in stores:
+        k = w.node.targets[0].slice
+        exprs = [k]
+        if isinstance(k, ast.Name):
+            exprs = [getattr(a, "value", k) for a in assignments_to(syt, k.id)]
+        for e in exprs:
+            if any(isinstance(y, ast.Call) and ("uuid" in norm(y.func) or norm(y.func) in ("id", "next", "object")) for y in ast.walk(e)):
+                uniq = True
+    c.ob("R3", uniq, syt, "cancel-flag-key-unique-per-timer",
+         "every armed timer registers its cancel flag under a key with a fresh unique component" if uniq else
+         "the sync timer's cancel flag is stored under a key that is the same for several timers of one state (e.g. one delay with a list of "
+         "candidate transitions arms one timer per candidate): later registrations overwrite earlier ones, exit/stop can signal only the last flag "
+         "and the other timer threads can no longer be cancelled, so a stale expiry fires after the state was left and re-entered", syt.node)
     # ---- R4 activation identity of after-events ------------------------------------------
     evmod = p.module("events")
     ae = evmod.classes.get("AfterEvent")
